@@ -65,6 +65,15 @@ func Negotiator(addr jid.JID, secret []byte, recv bool) xmpp.Negotiator {
 			out.XMLNS = NSAccept
 		}
 
+		// Like the stream negotiation of the xmpp package: a context that has
+		// ended is noticed before the peer's stream header is read, also on
+		// transports that cannot interrupt their I/O.
+		select {
+		case <-ctx.Done():
+			return mask, nil, nil, ctx.Err()
+		default:
+		}
+
 		foundProc := false
 		var start xml.StartElement
 		// TODO: This loop is stupid and probably broken. Find a way to reuse existing
